@@ -1362,3 +1362,14 @@ def run(chk):
     chk.floor("P2-", 14)
     chk.floor("C-sort", 4)
     chk.floor("G1-", 1)
+
+
+# --- engine I (pgverif/oneshot.py): one-shot iterators handed out by the grid accessors are walked once per creation and never memoised.
+# Run first so that its reports do not depend on the idiom recognition of the rules above.
+_run_before_engine_I = run
+
+
+def run(chk):  # noqa: F811
+    from ..oneshot import attach
+    attach(chk, [(U.GRID, None), (U.LAYOUT, None)])
+    _run_before_engine_I(chk)
